@@ -665,6 +665,33 @@ def fallback_native(chk, detector, su, r, label, role, oracle_fn, meta=None, bas
                       {'job': 'detect', 'detector': detector, 'source': text, 'observed': det, 'problems': problems})
 
 
+HEADER = '// © 2022 ünïcödé — 版权所有 𝄞 header\n/* second line: a + b; x++ */\n\n'
+
+
+def line_level_validation(chk, meta, out):
+    """the statement of the detector properties is about reported LINES: every 4th validated case is also pushed through the compiled
+    analyze_for_* with a header of multi-byte characters in front; the lines must be the lines on which the detector's own locations
+    (as returned for the file without the header) begin"""
+    jobs, exp = [], []
+    hb = len(HEADER.encode('utf-8'))
+    for i, (detector, label, text, pred, conc) in enumerate(meta):
+        det = out[2 * i + 1]
+        if (i + chk.seed) % 4 or det[0] != 'OK' or out[2 * i][0] != 'OK':
+            continue
+        starts = sorted({int(x.split(':')[0]) for x in det[1].split(',') if x})
+        full = HEADER + text
+        raw = full.encode('utf-8')
+        want = sorted({1 + raw[:hb + st].count(b'\n') for st in starts})
+        jobs.append(['analyze', oracle.CATEGORY[detector], detector, chk.native.file(full)])
+        exp.append((detector, label, full, want))
+    for (detector, label, full, want), r in zip(exp, chk.native.run(jobs)):
+        chk.states += 1
+        got = [int(x) for x in r[1].split(',') if x] if r[0] == 'OK' else r
+        if got != want:
+            chk.violation('%s:lines' % detector, '%s [%s] behind a multi-byte header: analyze_for_%s reports lines %r, the flagged constructs begin on lines %r' % (
+                detector, label, oracle.CATEGORY[detector], got, want), {'job': 'analyze', 'category': oracle.CATEGORY[detector], 'detector': detector, 'source': full, 'expected': want, 'observed': got})
+
+
 def flush_validation(chk, results):
     """natively validate every path recorded by run_case: round trip through the parser + predicted result"""
     jobs, meta = [], []
@@ -674,6 +701,7 @@ def flush_validation(chk, results):
             jobs.append(['debugtree', p]); jobs.append(['detect', detector, p])
             meta.append((detector, label, text, pred, conc))
     out = chk.native.run(jobs)
+    line_level_validation(chk, meta, out)
     for i, (detector, label, text, pred, conc) in enumerate(meta):
         dbg, det = out[2 * i], out[2 * i + 1]
         if dbg[0] != 'OK' or sol.strip_locs(unhex(dbg[1])) != sol.debug_render(conc, chk.world.types):
